@@ -464,13 +464,21 @@ def termination_events(r, ext):
     for p, name, ok, v, now in r.ended:
         if r.lab(p) in ext:
             continue
-        what = f'returned {v!r}' if ok else f'died with {v!r}'
+        show = lambda x: (f'the event object e{r.lab(x)} (a {type(x).__name__}' + (f', process {r.pnames.get(id(x))}' if id(x) in r.pnames else '') + ')') \
+            if hasattr(x, 'callbacks') and hasattr(x, 'env') else repr(x)
+        what = f'returned {show(v)}' if ok else f'died with {v!r}'
         if not p.triggered:
             return [{'what': f'the generator of process {name} {what} at {now} but its Process event was never triggered (is_alive is '
                              f'still {p.is_alive}): nobody waiting for that process can be resumed', 'signature': 'c02-termination-event'}]
         if not same_outcome(p.ok, p.value, ok, v):
             return [{'what': f'the generator of process {name} {what} at {now} but its Process event carries '
-                             f'{"value" if p.ok else "exception"} {p.value!r}', 'signature': 'c02-termination-event'}]
+                             f'{"value" if p.ok else "exception"} {show(p.value)}', 'signature': 'c02-termination-event'}]
+        # ... and the termination is an occurrence of that very instant: the Process event is processed (its waiters invoked) at
+        # the instant at which the generator ended, whatever the returned value is (a Process / Event object is a value too)
+        q = r.processed.get(r.lab(p))
+        if q is not None and q[1] != now:
+            return [{'what': f'the generator of process {name} {what} at {now} but its Process event was processed (its waiters were resumed) '
+                             f'only at {q[1]}', 'signature': 'c02-termination-event'}]
     return []
 
 
